@@ -12,6 +12,8 @@ import DimModel.Proofs.C04String
 import DimModel.Props.C10
 import DimModel.Props.C11
 import DimModel.Proofs.C05Cache
+import DimModel.Proofs.C05Bisim
+import DimModel.Proofs.C05Grouped
 namespace DimModel
 open Lib
 
@@ -948,6 +950,57 @@ theorem union_history_independent (ops : List AOp) (i j : Nat) (a b : CAxis)
     (unionEff i j a b).res = (unionEff i j a.forget b.forget).res :=
   unionEff_answer i j a b (coherent_run ops [] (fun _ h => by cases h) a ha) (coherent_run ops [] (fun _ h => by cases h) b hb)
 
+/-! #### full bisimulation (Proofs/C05Bisim.lean): the cached flags are unobservable -/
+
+/-- erasing the flags gives a coherent heap, and is idempotent -/
+theorem forgetSt_coherent (s : St) : Coherent (forgetSt s) ∧ forgetSt (forgetSt s) = forgetSt s :=
+  ⟨forget_coherent s, forgetSt_idem s⟩
+
+/-- ONE STEP: for every operation and every coherent heap, the operation returns the same result on the heap and on the
+heap with all flags erased, and the two new heaps are equal up to the flags -/
+theorem step_forget (s : St) (op : AOp) (hs : Coherent s) :
+    (step s op).2 = (step (forgetSt s) op).2 ∧ forgetSt (step s op).1 = forgetSt (step (forgetSt s) op).1 :=
+  step_forget' s op hs
+
+/-- any history from two coherent heaps that agree up to the flags: same results, final heaps agree up to the flags -/
+theorem run_bisim (ops : List AOp) (s t : St) (hs : Coherent s) (ht : Coherent t) (hst : forgetSt s = forgetSt t) :
+    (run s ops).2 = (run t ops).2 ∧ forgetSt (run s ops).1 = forgetSt (run t ops).1 :=
+  run_sim ops s t hs ht hst
+
+/-- the heap with erased flags IS the heap of freshly constructed axes: `Axis(labels)` for every live object, in order,
+from the empty heap -/
+theorem forgetSt_is_fresh_heap (s : St) : (run [] (reconstruct s)).1 = forgetSt s := by
+  rw [run_construct s []]; rfl
+
+/-- THE CLAUSE for the plain-axis machine: after ANY history `ops1` from the empty heap, ANY continuation `ops2` returns
+the same results as from the heap of freshly constructed axes with the same labels (built by public constructor calls
+alone), and the heaps reached agree up to the cached flags -/
+theorem run_history_independent (ops1 ops2 : List AOp) :
+    (run (run [] ops1).1 ops2).2 = (run (run [] (reconstruct (run [] ops1).1)).1 ops2).2 ∧
+    forgetSt (run (run [] ops1).1 ops2).1 = forgetSt (run (run [] (reconstruct (run [] ops1).1)).1 ops2).1 := by
+  rw [forgetSt_is_fresh_heap]
+  exact run_sim ops2 _ _ (coherent_run ops1 [] (fun _ h => by cases h)) (forget_coherent _) (forgetSt_idem _).symm
+
+/-- coherence is needed: with a stale flag (what `sort` produced before 5b0fd27) `is_monotonic()` answers differently
+from the erased heap -/
+theorem step_forget_incoherent_counterexample :
+    let s : St := [{ labels := [.num 1, .num 2, .num 2], kind := .i, mono := some true }]
+    ¬ Coherent s ∧ (step s (.isMonotonic 0)).2 ≠ (step (forgetSt s) (.isMonotonic 0)).2 := by
+  refine ⟨?_, by decide⟩
+  intro h
+  have := h _ (List.mem_singleton.mpr rfl)
+  revert this
+  decide
+
+/-- non-trivial instance: a history that fills, copies and resets flags, then a continuation reading them through
+`union` and `is_monotonic` -/
+example :
+    let ops1 : List AOp := [.construct [.num 1, .num 2, .num 3] .i, .construct [.num 5, .num 4] .i, .isMonotonic 0,
+                            .getSlice 0 none none (some (-1)), .union 0 1, .setItem 1 0 (.num 9) .i]
+    let ops2 : List AOp := [.union 0 1, .isMonotonic 2, .union 2 1, .labels 4]
+    (run [] ops1).1.map (·.mono) = [some true, none, some true, none] ∧
+    (run (run [] ops1).1 ops2).2 = (run (forgetSt (run [] ops1).1) ops2).2 := by decide
+
 /-- why 5b0fd27 was needed: an in-place sort that SETS the flag is incoherent as soon as the sorted labels hold a
 duplicate ([2, 1, 2] -> [1, 2, 2]), and `is_monotonic()` then differs from the fresh axis -/
 theorem sort_sets_true_counterexample (a : CAxis) (h : sortBy Label.le a.labels = [.num 1, .num 2, .num 2]) :
@@ -965,4 +1018,99 @@ example : (run [] [.construct [.num 1, .num 2, .num 3] .i, .isMonotonic 0, .getS
                    .setItem 0 0 (.num 2) .i, .isMonotonic 0]).1.map (·.mono) = [some false, some true] := by decide
 
 end AxisCache
+end DimModel
+
+/-! ### history independence: the cached labels / size / name of grouped axes (Lib/GroupedCache.lean) -/
+namespace DimModel
+namespace GroupedCache
+open Lib
+
+/-- every operation of a history is safe in the state it runs in -/
+def safeRun : St → List GOp → Bool
+  | _, [] => true
+  | s, op :: ops => Safe s op && safeRun (step s op).1 ops
+
+theorem grouped_coherent_init : Coherent ({} : St) := fun _ h => by cases h
+
+/-- every operation other than (a) relabelling / renaming a plain axis that is a member of a live grouped axis and
+(b) item assignment on the grouped axis keeps every grouped axis coherent: cached tuple labels, size and name are
+unset or what a fresh `MultiAxis` of the members as they are now computes -/
+theorem grouped_coherent_step (s : St) (op : GOp) (hs : Coherent s) (hsafe : Safe s op = true) : Coherent (step s op).1 :=
+  step_coherent s op hs hsafe
+
+theorem grouped_coherent_run (ops : List GOp) : ∀ s : St, Coherent s → safeRun s ops = true → Coherent (run s ops).1 := by
+  induction ops with
+  | nil => intro s hs _; exact hs
+  | cons op ops ih =>
+    intro s hs h
+    simp only [safeRun, Bool.and_eq_true] at h
+    exact ih _ (step_coherent s op hs h.1) h.2
+
+/-- `a.flatten(dims)` groups COPIES: no axis that existed before becomes a member, so relabelling / renaming the
+source array's axes afterwards stays a safe operation (the flattened array is not reached) -/
+theorem flatten_isolated_from_source (s : St) (ms : List Nat) (p : Nat) (hp : p < s.plain.length) :
+    isMember (step s (.flattenFrom ms)).1 p = isMember s p := by
+  simp only [step]
+  split
+  · simp only [isMember, List.any_append, List.any_cons, List.any_nil, Bool.or_false]
+    have : (List.range' s.plain.length ms.length).contains p = false := by
+      simp only [List.contains_eq_mem, List.mem_range'_1, decide_eq_false_iff_not]; omega
+    rw [this, Bool.or_false]
+  · rfl
+
+/-- what survives even the unsafe operations: relabelling / renaming ANY plain axis (members of live grouped axes included)
+keeps every cached `_size` honest - no setter changes a length -/
+theorem grouped_size_survives_member_mutation (s : St) (p : Nat) (pos : Int) (v : Label) (n : String) (hs : SizeCoherent s) :
+    SizeCoherent (step s (.relabelMember p pos v)).1 ∧ SizeCoherent (step s (.renameMember p n)).1 :=
+  ⟨relabel_size_coherent s p pos v hs, rename_size_coherent s p n hs⟩
+
+/-- (a) is needed - the open defect: `g = MultiAxis(x, y); g.values; x[0] = 9; g.values` answers the OLD tuples, the same
+history without the first read answers the new ones; the state after the relabelling is incoherent -/
+theorem grouped_stale_after_member_relabel_counterexample :
+    let pre : List GOp := [.mkPlain [.num 1, .num 2] "x", .mkPlain [.num 5, .num 6] "y", .group [0, 1]]
+    let relabel : GOp := .relabelMember 0 0 (.num 9)
+    (run {} (pre ++ [.readLabels 0, relabel, .readLabels 0])).2.getLast? ≠ (run {} (pre ++ [relabel, .readLabels 0])).2.getLast? ∧
+    Coherent (run {} (pre ++ [.readLabels 0])).1 ∧ ¬ Coherent (run {} (pre ++ [.readLabels 0, relabel])).1 ∧
+    (run {} (pre ++ [.readLabels 0, relabel, .readLabels 0, .unflatten 0])).2.getLast? =
+      some (.members [([.num 9, .num 2], "x"), ([.num 5, .num 6], "y")]) := by decide
+
+/-- the same through `flatten`: the members of the grouped axis of the flattened array (`b.axes[0].axes[0]`) -/
+theorem flatten_stale_after_member_relabel_counterexample :
+    let pre : List GOp := [.mkPlain [.num 1, .num 2] "x", .mkPlain [.num 5, .num 6] "y", .flattenFrom [0, 1]]
+    (run {} (pre ++ [.readLabels 0, .relabelMember 2 0 (.num 9), .readLabels 0])).2.getLast? ≠
+      (run {} (pre ++ [.relabelMember 2 0 (.num 9), .readLabels 0])).2.getLast? ∧
+    -- relabelling the SOURCE axis (object 0) is harmless
+    (run {} (pre ++ [.readLabels 0, .relabelMember 0 0 (.num 9), .readLabels 0])).2.getLast? =
+      (run {} (pre ++ [.relabelMember 0 0 (.num 9), .readLabels 0])).2.getLast? := by decide
+
+/-- the name is joined once: renaming a member leaves `g.name` stale although `unflatten` hands out the new name -/
+theorem grouped_name_stale_after_member_rename_counterexample :
+    let ops : List GOp := [.mkPlain [.num 1, .num 2] "x", .mkPlain [.num 5, .num 6] "y", .group [0, 1], .renameMember 0 "q"]
+    (run {} (ops ++ [.readName 0])).2.getLast? = some (.name "x,y") ∧ ¬ Coherent (run {} ops).1 ∧
+    freshName (run {} ops).1.plain [0, 1] = "q,y" := by decide
+
+/-- history dependence WITHOUT any mutation: `g.take(...)` (and `g[pos] = t`) raise AttributeError until the labels were
+read once -/
+theorem grouped_take_before_read_counterexample :
+    let pre : List GOp := [.mkPlain [.num 1, .num 2] "x", .mkPlain [.num 5, .num 6] "y", .group [0, 1]]
+    (run {} (pre ++ [.takeG 0 [0]])).2.getLast? = some (.err .attribute) ∧
+    (run {} (pre ++ [.readLabels 0, .takeG 0 [0]])).2.getLast? = some (.tuples [[.num 1, .num 5]]) ∧
+    (run {} (pre ++ [.setItemG 0 0 [.num 7, .num 7]])).2.getLast? = some (.err .attribute) ∧
+    (run {} (pre ++ [.readLabels 0, .setItemG 0 0 [.num 7, .num 7]])).2.getLast? = some .unit := by decide
+
+/-- (b) is needed: an accepted `g[pos] = t` rewrites the cached tuples only, the members keep their labels -/
+theorem grouped_setitem_incoherent_counterexample :
+    let ops : List GOp := [.mkPlain [.num 1, .num 2] "x", .mkPlain [.num 5, .num 6] "y", .group [0, 1], .readLabels 0,
+                           .setItemG 0 0 [.num 7, .num 7]]
+    ¬ Coherent (run {} ops).1 ∧
+    (run {} (ops ++ [.unflatten 0])).2.getLast? = some (.members [([.num 1, .num 2], "x"), ([.num 5, .num 6], "y")]) := by decide
+
+/-- the hypotheses are satisfiable by a non-trivial history: flatten, reads, copy, relabelling of the source, slices -/
+example :
+    let ops : List GOp := [.mkPlain [.num 1, .num 2] "x", .mkPlain [.str "a", .str "b", .str "c"] "y", .flattenFrom [1, 0],
+                           .readLabels 0, .readSize 0, .relabelMember 0 1 (.num 7), .renameMember 1 "w", .copyG 0,
+                           .sliceG 1 (some 1) none (some 2), .takeG 1 [-1], .group [0, 1], .readLabels 2]
+    safeRun {} ops = true ∧ Coherent (run {} ops).1 ∧ (run {} ops).1.grouped.map (·.size) = [some 6, some 6, none] := by decide
+
+end GroupedCache
 end DimModel
